@@ -1,6 +1,7 @@
 package harness
 
 import (
+	"bytes"
 	"context"
 	"encoding/json"
 	"errors"
@@ -112,8 +113,12 @@ func (c StoreCfg) cacheConfig(name string, st cache.StatsTracker, needed *bool) 
 	return cc
 }
 
+// relayNext: ShardedMap and SyncMap relay to each other, ShardedMapOf[V] to itself (C13).
+var relayNext = map[string]string{"ShardedMap": "SyncMap", "SyncMap": "ShardedMap", "ShardedMapOf": "ShardedMapOf"}
+
 // storeRun replays one behaviour on one backend inside a synctest bubble.
 type storeRun struct {
+	mk     func(kind string) Backend
 	cfg    StoreCfg
 	km     *KeyMap
 	be     Backend
@@ -266,6 +271,29 @@ func (r *storeRun) exec(st stepJ) repJ {
 		time.Sleep(r.u)
 
 		return repJ{R: "ok"}
+	case "Relay":
+		// Dump through gob, restore into a NEW empty cache of the same family, carry on with that one.
+		var buf bytes.Buffer
+
+		n1, err := r.be.Dump(&buf)
+		if err != nil {
+			return repJ{R: "error:dump:" + err.Error()}
+		}
+
+		next := r.mk(relayNext[r.be.Kind()])
+
+		n2, err := next.Restore(&buf)
+		if err != nil {
+			return repJ{R: "error:restore:" + err.Error()}
+		}
+
+		if n1 != n2 {
+			return repJ{R: fmt.Sprintf("error:dump reported %d entries, restore %d", n1, n2)}
+		}
+
+		r.be = next
+
+		return repJ{R: "n", N: n1}
 	case "Cleanup":
 		before := r.stat.Total(cache.MetricEvict, "store")
 		r.needed = op.Skip
@@ -455,7 +483,30 @@ func TestStoreReplay(t *testing.T) {
 
 		for _, kind := range kinds {
 			r := &storeRun{cfg: cfg, km: km, u: cfg.unit(), stat: NewStatRec()}
-			r.be = NewBackend(kind, cfg.cacheConfig("store", r.stat, &r.needed))
+			mk := func(kind string) Backend { return NewBackend(kind, cfg.cacheConfig("store", r.stat, &r.needed)) }
+			r.be = mk(kind)
+
+			// Caches must be constructed outside the bubble (janitor goroutines, finalizers): one spare per Relay step.
+			var spares []Backend
+
+			nextKind := kind
+			for _, st := range b {
+				if st.Op.Name == "Relay" {
+					nextKind = relayNext[nextKind]
+					spares = append(spares, mk(nextKind))
+				}
+			}
+
+			r.mk = func(kind string) Backend {
+				s := spares[0]
+				spares = spares[1:]
+
+				if s.Kind() != kind {
+					panic("harness: spare backend of wrong kind")
+				}
+
+				return s
+			}
 
 			v, okN := r.run(t, bi, b)
 			res.Evaluations++
